@@ -679,6 +679,87 @@ def run(facts):
                                   "missing ManuallyDrop / mem::forget" % ", ".join(bad[1]), path="bb" + "->bb".join(str(x) for x in bad[0]))
         else:
             res.ok(key, b.loc(), "raw disposal (%s) never followed by a drop of the same parameter" % ", ".join(sorted(set(raw_blocks.values()))), nontrivial=True)
+    # --- handles behind `&mut`: a reference released by hand must not be released again by an in-place drop ----------------------
+    # (`release_shared(shared); *self = BytesMut::from_vec(v)`: the assignment drops the old value of `*self`, whose Drop releases once more)
+    for b in facts.fn_bodies():
+        if b.kind == "closure" or b.arg_count < 1 or facts.is_test(b):
+            continue
+        ty1 = b.locals[1]["ty"]
+        if not (ty1.startswith("&") and "mut " in ty1 and ty1.split("mut ", 1)[1].strip() in a2.handles):
+            continue
+        eb = ExprBuilder(b, facts, inline=False)
+
+        def of_self(e):
+            for x in walk(e):
+                if x[0] == "field" and x[2] in ("data",):
+                    r = x[1]
+                    while isinstance(r, tuple) and r[0] in ("deref", "ref"):
+                        r = r[1]
+                    if r == ("param", 1):
+                        return True
+            return False
+        rel_blocks, drop_blocks = {}, []
+        for bi, blk in enumerate(b.blocks):
+            if blk["cleanup"]:
+                continue
+            t = blk["term"]
+            if t["k"] == "drop" and t["pl"]["l"] == 1 and t["pl"]["p"] == ["*"] and t["ty"] in a2.handles:
+                drop_blocks.append(bi)
+            if t["k"] != "call":
+                continue
+            fn = callee(t)
+            if fn is None:
+                continue
+            r = fn.get("res") or fn
+            loc = (bi, len(blk["stmts"]))
+            if r.get("local") and r.get("did") is not None:
+                cb = facts.by_did.get(r["did"])
+                if cb is not None and cb.did in a2.release_prims and any(of_self(eb.operand(a, loc)) for a in t["args"]):
+                    rel_blocks[bi] = cb.id.rsplit("::", 1)[-1]
+        if not rel_blocks:
+            continue
+        n_paths += 1
+        key = "%s|released by hand" % b.id
+        bad = None
+        if drop_blocks:
+            for path in enumerate_paths(b, limit=5000):
+                rs = [x for x in path if x in rel_blocks]
+                ds = [x for x in path if x in drop_blocks and rs and path.index(x) > path.index(rs[0])]
+                if rs and ds:
+                    bad = path
+                    break
+        # .. and the handle must not keep pointing at the control block it gave up: a later store to `self.data` (or a whole new value) follows
+        im_ = facts.impl_of(b)
+        is_drop_ = bool(im_ and im_.get("trait") == "core::ops::Drop")
+        if not bad and not is_drop_:
+            stores = set()
+            for bi, blk in enumerate(b.blocks):
+                for s_ in blk["stmts"]:
+                    if s_["k"] == "assign" and s_["pl"]["l"] == 1 and len(s_["pl"]["p"]) >= 1 and s_["pl"]["p"][0] == "*" and (
+                            len(s_["pl"]["p"]) == 1 or (isinstance(s_["pl"]["p"][1], dict) and str(s_["pl"]["p"][1].get("n")) == "data")):
+                        stores.add(bi)
+            for bi, t_ in b.calls():
+                fn_ = callee(t_)
+                if fn_ and fn_["name"] in ("write", "replace", "swap") and t_["args"] and ("ptr" in (fn_.get("res") or fn_).get("path", "") or "mem" in (fn_.get("res") or fn_).get("path", "")):
+                    e_ = canon(eb.operand(t_["args"][0], (bi, len(b.blocks[bi]["stmts"]))))
+                    while isinstance(e_, tuple) and e_ and e_[0] in ("ref", "deref"):
+                        e_ = e_[1]
+                    if e_ == ("param", 1):
+                        stores.add(bi)
+            for path in enumerate_paths(b, limit=5000):
+                rs = [x for x in path if x in rel_blocks]
+                if rs and not any(x in stores and path.index(x) >= path.index(rs[0]) for x in path):
+                    res.bad(key, b.loc(), "a path releases the handle's reference by hand (%s) and returns with `self.data` still pointing at the control block it gave up: "
+                                          "the handle's own Drop releases it a second time" % ", ".join(sorted(set(rel_blocks.values()))), path="bb" + "->bb".join(str(x) for x in path))
+                    bad = "reported"
+                    break
+        if bad == "reported":
+            pass
+        elif bad:
+            res.bad(key, b.loc(), "a path releases the handle's reference by hand (%s) and then drops the handle in place (`*self = ..`), whose Drop releases "
+                                  "it a second time" % ", ".join(sorted(set(rel_blocks.values()))), path="bb" + "->bb".join(str(x) for x in bad))
+        else:
+            res.ok(key, b.loc(), "%s by hand; the handle is re-pointed field by field, never dropped in place afterwards" % ", ".join(sorted(set(rel_blocks.values()))), nontrivial=True)
     # --- initial counts ----------------------------------------------------------------------------
     for b in facts.fn_bodies():
         if b.kind == "closure" or b.did in a2.release_prims:
@@ -919,6 +1000,16 @@ def run(facts):
                 if fn2 and fn2["name"] in ("read", "drop_in_place", "replace", "take", "read_unaligned") and bj != bi and cfg.dominates(bj, bi) and t2["args"]:
                     if canon(eb.operand(t2["args"][0], (bj, len(b.blocks[bj]["stmts"])))) == dst:
                         moved_out = True
+            # .. or its reference was given back by hand before (release primitive on the handle's own control block)
+            for bj, t2 in b.calls():
+                fn2 = callee(t2)
+                r2 = (fn2.get("res") or fn2) if fn2 else {}
+                if fn2 and r2.get("local") and r2.get("did") in a2.release_prims and bj != bi and cfg.dominates(bj, bi):
+                    for a_ in t2["args"]:
+                        ea = canon(eb.operand(a_, (bj, len(b.blocks[bj]["stmts"]))))
+                        base = dst[1] if isinstance(dst, tuple) and dst and dst[0] == "ref" else ("deref", dst)
+                        if any(isinstance(y, tuple) and y and y[0] == "field" and y[2] == "data" and canon(y[1]) in (canon(base), dst) for y in walk(ea)):
+                            moved_out = True
             key = "%s|handle overwritten in place" % b.id
             if moved_out or not any(x[0] == "param" for x in walk(dst) if isinstance(x, tuple) and x):
                 res.ok(key, b.loc(bi), "the old value was moved out / dropped before ptr::write (or the destination is fresh memory)", nontrivial=True)
